@@ -59,6 +59,7 @@ type scenario struct {
 	// weights of action groups: step, env, start
 	WStep, WEnv, WStart int
 	Feat                map[string]bool
+	AltRanges           map[string][][]string // ranges later incarnations of a pod name may ask for instead
 }
 
 type driver struct {
@@ -249,7 +250,8 @@ func (d *driver) startBind(pod, node string) {
 	args := &schedulerapi.ExtenderBindingArgs{PodName: pod, PodNamespace: env.NS, PodUID: types.UID(p.UID), Node: node}
 	op, err := d.w.S.Start("bind", func() M {
 		e := plugin.Bind(args)
-		return M{"ok": e == nil, "err": errStr(e)}
+		// "wait": the documented refusal while an earlier same-named pod still holds the IP
+		return M{"ok": e == nil, "err": errStr(e), "wait": e != nil && strings.Contains(e.Error(), "waiting for delete event")}
 	})
 	oi := d.register("bind", pod, node, op, err)
 	d.emitOp(oi, M{"ev": "StartBind", "op": op.ID, "pod": pod, "uid": string(p.UID), "node": node})
@@ -552,10 +554,14 @@ func (d *driver) envAction() bool {
 		v, exists := truth[s.Name]
 		if !exists && d.inc[s.Name] < d.sc.MaxInc && !(d.liveOf("bind", s.Name) && d.rng.Intn(10) != 0) {
 			add(6, func() {
-				pv, err := w.CreatePod(s)
+				sp := s
+				if alt, ok := d.sc.AltRanges[s.Name]; ok && d.inc[s.Name] > 0 && d.rng.Intn(3) != 0 {
+					sp.Ranges = alt // the template changed between incarnations
+				}
+				pv, err := w.CreatePod(sp)
 				if err == nil {
 					d.inc[s.Name]++
-					d.emit(M{"ev": "CreatePod", "pod": s.Name, "uid": pv.UID})
+					d.emit(M{"ev": "CreatePod", "pod": s.Name, "uid": pv.UID, "ranges": pv.Ranges})
 				}
 			})
 		}
@@ -707,6 +713,55 @@ func allIPs(cfgs []env.Config) []string {
 	return out
 }
 
+// lastOp is the operation started last.
+func (d *driver) lastOp() *opInfo {
+	max := 0
+	for id := range d.ops {
+		if id > max {
+			max = id
+		}
+	}
+	return d.ops[max]
+}
+
+// runAlone steps one operation, and nothing else, until it ends; false if it got stuck behind a lock.
+func (d *driver) runAlone(oi *opInfo) bool {
+	for guard := 0; guard < 200 && !d.hung && d.w.Alive; guard++ {
+		if oi.op.Done || oi.op.Dead {
+			return true
+		}
+		ok := false
+		for _, r := range d.runnable() {
+			ok = ok || r == oi
+		}
+		if !ok {
+			return false
+		}
+		d.step(oi, 0, 0)
+	}
+	return oi.op.Done
+}
+
+// filterThenBind is the scheduler's cycle with nothing in between (C06): filter the pod, then bind it on one of the
+// offered nodes, each running alone and without faults.
+func (d *driver) filterThenBind(name string) {
+	if d.rng.Intn(5) != 0 { // mostly with an informer that has caught up
+		for guard := 0; len(d.w.Pevq) > 0 && guard < 50; guard++ {
+			d.deliverPod()
+		}
+	}
+	d.startFilter(name)
+	if !d.runAlone(d.lastOp()) {
+		return
+	}
+	nodes := d.filtered[name]
+	if len(nodes) == 0 {
+		return
+	}
+	d.startBind(name, nodes[d.rng.Intn(len(nodes))])
+	d.runAlone(d.lastOp())
+}
+
 func (d *driver) startAction() bool {
 	w := d.w
 	if !w.Alive || d.liveCount() >= d.sc.MaxOps {
@@ -721,6 +776,9 @@ func (d *driver) startAction() bool {
 		name := s.Name
 		v, exists := truth[name]
 		if exists && v.Node == "" && v.Phase == "Pending" && !d.liveOf("filter", name) && !d.liveOf("bind", name) {
+			if d.sc.Feat["cycle"] {
+				add(12, func() { d.filterThenBind(name) })
+			}
 			if nodes, ok := d.filtered[name]; ok && len(nodes) > 0 {
 				add(8, func() { d.startBind(name, nodes[d.rng.Intn(len(nodes))]) })
 				add(1, func() { d.startFilter(name) })
